@@ -137,7 +137,7 @@ def concretize(sc, rng, exotic=False, rot=None, force=None):
                 raise NoVerdict("internal: %d variants at site %s" % (len(options), site))
             return options[force[site]]
         return rng.choice(options) if exotic or rot is None else rot.choice(options, site)
-    legacy = sc["cmd"] == "legacy"
+    legacy = sc["cmd"] != "json"       # every non-JSON class may be rendered in the legacy format: names without white space and '@'
     if exotic:
         ln, ru, rh = gen_text(rng, filename=True), gen_text(rng, legacy), gen_text(rng, legacy)
     else:
